@@ -38,7 +38,7 @@ var panicRoots = []string{
 // module functions that panic on a precondition the caller must establish:
 // name -> the guard method that must dominate with true result on the same receiver path
 var forcePanics = map[string][]string{
-	"(reservoir/utils/typeutils.Optional).ForceUnwrap":    {"(reservoir/utils/typeutils.Optional).IsSome"},
+	"(reservoir/utils/typeutils.Optional).ForceUnwrap":    {"(reservoir/utils/typeutils.Optional).IsSome", "!(reservoir/utils/typeutils.Optional).IsNone"},
 	"(reservoir/utils/typeutils.Either).ForceUnwrapLeft":  {"(reservoir/utils/typeutils.Either).IsLeft"},
 	"(reservoir/utils/typeutils.Either).ForceUnwrapRight": {"(reservoir/utils/typeutils.Either).IsRight", "!(reservoir/utils/typeutils.Either).IsLeft"},
 	"(*reservoir/proxy/headers.Header).Value":             {"(*reservoir/proxy/headers.Header).IsPresent"},
